@@ -786,6 +786,24 @@ func (ex *c12Exec) call(fr *c12Frame, call *ast.CallExpr) c12Val {
 			return ex.unknownResult(fr, call)
 		}
 	}
+	if ex.writerNative && len(args) >= 2 && (name == "fmt.Fprintf" || name == "fmt.Fprint" || name == "io.WriteString") {
+		// formatted output into a repository writer: its own Write (WriteString) method receives the bytes
+		if m := ex.repoWriteMethod(fr.info.TypeOf(call.Args[0]), name == "io.WriteString"); m != nil && ex.depth < c12MaxDepth {
+			var s c12Str
+			switch name {
+			case "fmt.Fprintf":
+				s = ex.sprintf(args[1], args[2:])
+			default:
+				for _, a := range args[1:] {
+					s = s.concat(c12ToStr(a))
+				}
+			}
+			rec.Inlined = true
+			ex.path.Calls = append(ex.path.Calls, rec)
+			ex.callDecl(m, args[0], []c12Val{s})
+			return c12Tuple{Vals: []c12Val{c12Sym{Hole: -1, Desc: "n"}, c12Nil{}}}
+		}
+	}
 	// natives
 	if b, ok := ex.rv(recv).(c12Builder); ok {
 		switch fn.Name() {
@@ -829,6 +847,14 @@ func (ex *c12Exec) call(fr *c12Frame, call *ast.CallExpr) c12Val {
 	case "strconv.AppendInt", "strconv.AppendUint", "strconv.FormatInt", "strconv.FormatUint", "fmt.Appendf", "fmt.Append", "fmt.Sprint":
 		if v, ok := ex.strNative(name, args); ok {
 			return v
+		}
+	case "sync/atomic.LoadInt32", "sync/atomic.LoadInt64", "sync/atomic.LoadUint32", "sync/atomic.LoadUint64":
+		// the current value of the piece of state the pointer names, when it is known
+		if len(args) == 1 {
+			switch v := ex.rv(args[0]).(type) {
+			case c12Int:
+				return v
+			}
 		}
 	case "fmt.Errorf":
 		return c12Sym{Hole: -1, Desc: "error"}
@@ -915,6 +941,27 @@ func (ex *c12Exec) call(fr *c12Frame, call *ast.CallExpr) c12Val {
 		vals[i] = c12Sym{Hole: -1, Desc: fmt.Sprintf("%s#%d", name, i)}
 	}
 	return c12Tuple{Vals: vals}
+}
+
+// repoWriteMethod: the Write method (for io.WriteString: the WriteString method when there is one) that a value of
+// static type t brings along, if it is declared in the repository.
+func (ex *c12Exec) repoWriteMethod(t types.Type, preferString bool) *FuncInfo {
+	if t == nil {
+		return nil
+	}
+	names := []string{"Write"}
+	if preferString {
+		names = []string{"WriteString", "Write"}
+	}
+	for _, n := range names {
+		obj, _, _ := types.LookupFieldOrMethod(t, true, nil, n)
+		if fn, ok := obj.(*types.Func); ok {
+			if fi := ex.p.FuncOfObj(fn); fi != nil && fi.Decl.Body != nil {
+				return fi
+			}
+		}
+	}
+	return nil
 }
 
 func (ex *c12Exec) unknownResult(fr *c12Frame, call *ast.CallExpr) c12Val {
